@@ -64,6 +64,11 @@ impl<'a> G<'a> {
         &xs[i]
     }
 
+    pub fn pick_str(&mut self, xs: &[&'static str]) -> &'static str {
+        let i = self.below(xs.len());
+        xs[i]
+    }
+
     pub fn u64(&mut self) -> u64 {
         let mut v = 0u64;
         for _ in 0..8 {
